@@ -54,16 +54,16 @@ def canonicalize_url(
     if strip_fragment:
         fragment = None
 
+    # Path normalization
+    if path:
+        path = normpath(path)
+
     # Empty path etc.
     if not path or path == "/":
         if not query and not fragment:
             path = ""
         else:
             path = "/"
-
-    # Path normalization
-    else:
-        path = normpath(path)
 
     # Quotes
     if user:
